@@ -105,10 +105,18 @@ def check(ctx):
                "through the public parent a root-level member moved below another task stays in the root list and is listed twice in "
                "WBS.tasks", floor=4)
 
-    def _mirror(o):
-        from . import c01
-        c01.mirror_parent(ctx, o)
-    ctx.guarded(o, _mirror)
+    ctx.guarded(o, lambda o: mirror_shared(ctx, o))
+
+    o = ctx.ob('list_ops_keep_members', 'R8',
+               "the in-place operations of the children list keep every task (shared rule with C11): a task that drops out of the list while "
+               "it still reports the WBS is invisible to the id test, a second task with its id is accepted and both end up as members",
+               floor=1)
+    ctx.guarded(o, lambda o: __import__('rules.c11', fromlist=['list_ops']).list_ops(ctx, o))
+
+    o = ctx.ob('owners_compared_by_identity', 'R2',
+               "the same-WBS guards compare owners with `!=` / `==`: WBS must not define __eq__ / __ne__, or a task of another but "
+               "equal-looking WBS is moved in on a path that runs no id check", floor=1)
+    ctx.guarded(o, lambda o: owner_identity(ctx, o))
 
     o = ctx.ob('receiving_tree_scope', 'R8',
                "the receiving tree is the whole WBS: _find_root returns the WBS root task of an attached task (task.wbs._root()), and "
@@ -139,20 +147,108 @@ class _OwnProxy:
         return getattr(self._o, name)
 
     def refute(self, func, node, construct, msg):
+        if func is not None and func.cls in ('_PredecessorsList', '_SuccessorsList') and msg.startswith('_list is written outside'):
+            return None        # the wrapped list is a dependency list: C01's subject, neither ids nor WBS membership depend on it
+        # (a base-class helper that only the dependency lists call - C01-r43's _TaskList._unlink - is still reported: that entry is on
+        #  record as caught by C05/C11 in meta.json; dropping it here needs the record to be refreshed first)
+        if func is not None and (msg.startswith('__predecessors is written outside') or msg.startswith('__successors is written outside')):
+            return None
         if func is not None and msg.startswith("attribute store with a computed name") and func.cls == 'Task' and \
                 func.name.startswith('__') and not func.name.endswith('__') and self._only_ctor_callers(func):
             return self._o.site(func, node, "dynamic attribute store in a private helper of the constructor / clone")
+        if func is not None and msg.startswith("attribute store with a computed name") and isinstance(node, ast.Call) and node.args and \
+                isinstance(node.args[0], ast.Name):
+            # the guard `not key.startswith('_')` may sit behind a hoisted local (`is_own = key.startswith('_'); if is_own: .. else: <store>`):
+            # c01.own reads the path condition unexpanded
+            key = node.args[0].id
+            for t, q in facts.node_conditions(self._ctx.prog, func, node, self._ctx.typer, expand=True):
+                t2, q2 = facts.norm_cond(t, q)
+                if match(f"{key}.startswith('_')", t2) and not q2:
+                    return self._o.site(func, node, "dynamic attribute store limited to public names")
         return self._o.refute(func, node, construct, msg)
 
-    def _only_ctor_callers(self, g) -> bool:
+    def _callers(self, g):
         callers = []
         for f in self._ctx.prog.all_funcs():
             if isinstance(f.node, ast.Lambda) or f is g:
                 continue
             for ci in self._ctx.cg.calls_in(f):
                 if g in [t for t in ci.targets if t is not None]:
-                    callers.append(f.qual)
+                    callers.append(f)
+        return callers
+
+    def _only_ctor_callers(self, g) -> bool:
+        callers = [f.qual for f in self._callers(g)]
         return bool(callers) and set(callers) <= {'task.Task.__init__', 'task.Task.clone'}
+
+
+def owner_identity(ctx, o):
+    prog = ctx.prog
+    w = prog.cls('WBS')
+    bad = [n for n in ('__eq__', '__ne__') if n in w.methods]
+    # how do the guards compare owners?
+    by_value = []
+    for q in (SETTERS['parent'], SETTERS['children']):
+        f = prog.func(q)
+        for n in ast.walk(f.node):
+            if isinstance(n, ast.Compare) and len(n.ops) == 1 and isinstance(n.ops[0], (ast.Eq, ast.NotEq)) and \
+                    all(isinstance(x, ast.Attribute) and x.attr in ('_Task__wbs', 'wbs') for x in (n.left, n.comparators[0])):
+                by_value.append((f, n))
+    if bad and by_value:
+        f, n = by_value[0]
+        m = w.methods[bad[0]]
+        o.refute(m, m.node, bad[0], f"WBS defines {bad[0]} while the same-WBS guard `{src(n)}` in {f.name} compares owners by value: a member of "
+                                    f"another WBS that compares equal passes the guard and changes WBS without any id check / keeps a foreign owner")
+    elif bad:
+        o.site(w.methods[bad[0]], w.methods[bad[0]].node, "WBS defines __eq__, but the guards compare owners with `is`")
+    else:
+        o.site(None, None, "wbs.py WBS: no __eq__/__ne__ (owner comparison with != is identity)")
+
+
+class _MirrorProxy:
+    """c01.mirror_parent counts an `if <guard>: raise` that did not fire as a condition of the unlink when the guard's test is written
+    through hoisted locals (`detached = self.__wbs is None; if not detached and ..: raise`): the residue is recognised on the expanded
+    text only.  Here the path condition of the removal is read on the CFG: tests whose `if` only raises are residues, the rest must be
+    the allowed `linked` tests.  Everything else is passed through."""
+
+    def __init__(self, ctx, o):
+        self._ctx, self._o = ctx, o
+
+    def __getattr__(self, name):
+        return getattr(self._o, name)
+
+    def refute(self, func, node, construct, msg):
+        if construct == 'conditional unlink' and func is not None and isinstance(node, ast.AST) and self._only_residues(func, node):
+            return self._o.site(func, node, "self.__parent.__children.remove(self) when linked (guards that raise come first)")
+        return self._o.refute(func, node, construct, msg)
+
+    def _only_residues(self, f, call) -> bool:
+        prog = self._ctx.prog
+        cfg = cfg_of(f)
+        cn = cfg.node_containing(call)
+        if cn is None:
+            return False
+        s = f.self_name
+        p = [x for x in f.params if x != s][0]
+        ok = (f"{s}._Task__parent is None", f"{s} in {s}._Task__parent._Task__children", f"{p} is None", f"{s}._Task__wbs is None")
+        ex = Expander(prog, f, self._ctx.typer, inline=False)
+        ifs = [n for n in walk_no_nested(f.node) if isinstance(n, ast.If)]
+        for test, pol in cfg.conditions(cn):
+            iff = next((n for n in ifs if n.test is test), None)
+            if iff is not None and not any(x is call for x in ast.walk(iff)) and iff.body and \
+                    all(isinstance(b, ast.Raise) for b in iff.body[-1:]) and not iff.orelse and pol is False:
+                continue                # `if guard: raise` passed without raising
+            tx = ex.expand(test, cfg.node_containing(test))
+            for a, q in facts.split_conj(tx, pol):
+                a2, _ = facts.norm_cond(a, q)
+                if not any(match(pat, a2) for pat in ok):
+                    return False
+        return True
+
+
+def mirror_shared(ctx, o):
+    from . import c01
+    c01.mirror_parent(ctx, _MirrorProxy(ctx, o))
 
 
 def own_shared(ctx, o, eff):
